@@ -409,9 +409,14 @@ impl<'w, 'i, W: Write> SerializeSeq for Seq<'w, 'i, W> {
     where
         T: ?Sized + Serialize,
     {
-        self.last = value.serialize(self.ser.new_seq_element_serializer(!self.last.is_text()))?;
-        // Write indent for next element if indents are used
-        self.ser.write_indent = self.last.allow_indent();
+        let result = value.serialize(self.ser.new_seq_element_serializer(!self.last.is_text()))?;
+        // An item that writes nothing (unit) does not separate the items around it:
+        // whether the next item could be indented still depends on the item before
+        if result != WriteResult::Nothing {
+            self.last = result;
+            // Write indent for next element if indents are used
+            self.ser.write_indent = self.last.allow_indent();
+        }
         Ok(())
     }
 
